@@ -241,12 +241,34 @@ def strip_coq_comments(s: str) -> str:
     return "".join(out)
 
 
-def audit_sources() -> list[str]:
-    """Forbidden vernacular in the committed development (Variable/Hypothesis allowed inside a Section)."""
-    problems = []
-    for p in sorted(COQ.rglob("*.v")):
-        if "Gen" in p.relative_to(COQ).parts:
+def dep_closure(rel: str) -> list[Path]:
+    """Transitive `From JMCV Require …` closure of coq/<rel> (files of this development only)."""
+    seen, todo = {}, [rel]
+    while todo:
+        r = todo.pop()
+        if r in seen:
             continue
+        p = COQ / r
+        if not p.exists():
+            continue
+        seen[r] = p
+        text = strip_coq_comments(p.read_text())
+        for m in re.finditer(r"From\s+JMCV\s+Require\s+(?:Import|Export)?\s*(.*?)\.(?:\s|$)", text, re.S):
+            for mod in m.group(1).split():
+                todo.append(mod.replace(".", "/") + ".v")
+        for m in re.finditer(r"(?<!JMCV )Require\s+(?:Import|Export)?\s*(.*?)\.(?:\s|$)", text, re.S):
+            for mod in m.group(1).split():
+                if mod.startswith("JMCV."):
+                    todo.append(mod[len("JMCV."):].replace(".", "/") + ".v")
+    return [seen[k] for k in sorted(seen)]
+
+
+def audit_sources(rel: str | None = None) -> list[str]:
+    """Forbidden vernacular in the development (Variable/Hypothesis allowed inside a Section).
+    rel = 'Props/C01.v' restricts the audit to that file's dependency closure; None = every committed file."""
+    problems = []
+    files = dep_closure(rel) if rel else [p for p in sorted(COQ.rglob("*.v")) if "Gen" not in p.relative_to(COQ).parts]
+    for p in files:
         text = strip_coq_comments(p.read_text())
         depth = 0
         for ln, line in enumerate(text.split("\n"), 1):
@@ -286,11 +308,12 @@ def proof_step(prop: str, extra_targets: list[str] | None = None) -> dict:
         assumptions.append(blk.group(1).strip())
     closed = out.count("Closed under the global context")
     axioms = sorted(set(re.findall(r"^([A-Za-z_][\w.']*)\s*:", "\n".join(a for a in assumptions if a.startswith("Axioms")), re.M)))
-    audit = audit_sources()
+    audit = audit_sources(f"Props/{prop}.v")
+    dep_files = [str(p.relative_to(COQ)) for p in dep_closure(f"Props/{prop}.v")]
     return {
         "ok": ok and not audit, "build_ok": ok, "log": out[-6000:], "theorems": theorems,
         "n_print_assumptions": len(assumptions), "closed": closed, "axioms": axioms,
-        "audit": audit, "wall_s": round(time.time() - t0, 2),
+        "audit": audit, "files": dep_files, "wall_s": round(time.time() - t0, 2),
         "refuted": [t for t in theorems if "refuted" in t or "partial" in t],
     }
 
@@ -351,6 +374,7 @@ class Check:
         self.cov["obligations"] = max(1, len(pr["theorems"]))
         self.cov["discharged"] = len(pr["theorems"]) if pr["ok"] else 0
         self.cov["theorems"] = pr["theorems"]
+        self.cov["coq_files"] = pr["files"]
         self.cov["refuted_or_partial_theorems"] = pr["refuted"]
         self.cov["axioms"] = pr["axioms"] or ["none (every Print Assumptions: Closed under the global context)"]
         self.cov["print_assumptions_closed"] = pr["closed"]
